@@ -276,6 +276,26 @@ def invisible_probes(bases, rng, per_base=6):
     return out
 
 
+def namedify(items, rng, p=0.6):
+    """Rewrites tuple fieldsets as named fieldsets (`{ f0: A  _: $B }`), each with probability p: the grammar is the
+    same, but the rules reach the generator through the named-fieldset code paths."""
+    import copy
+    it = copy.deepcopy(items)
+
+    def conv(fs):
+        if fs["kind"] != "tuple" or rng.random() >= p:
+            return fs
+        return {"kind": "named", "fields": [{"name": (f"f{i}" if f["used"] else None), "sym": f["sym"]} for i, f in enumerate(fs["fields"])]}
+
+    for d in it:
+        if d["kind"] == "struct":
+            d["fieldset"] = conv(d["fieldset"])
+        elif d["kind"] == "enum":
+            for v in d["variants"]:
+                v["fieldset"] = conv(v["fieldset"])
+    return it
+
+
 def exhaustive_small_grammars(maxlen1=3, maxlen2=2, stride=1, offset=0):
     """Every grammar, up to the names, of a small scope: one nonterminal S over terminals {X, Y} with one or two
     alternatives of length <= maxlen1, and two nonterminals S, A with one or two alternatives each of length
